@@ -23,11 +23,11 @@ def main():
                        'rout_efficiency: only GErout and Erout (global part) are covered; local efficiencies are out of scope']
     # T-gen: re-extract the core update steps from /repo's current source (translate/cores.py); the generated
     # obligations say the extracted IR is the reference program whose interpreter is proved equal to the model
-    ck.cov['cores'] = cores.generate(families=['floyd', 'dijk', 'bin', 'bfs', 'reach'])
+    ck.cov['cores'] = cores.generate(families=['floyd', 'dijk', 'bin', 'bfs', 'reach', 'char', 'eff'])
     for p_ in ck.cov['cores']['problems']:
         ck.corr_break('core extractor (translate/cores.py)', p_)
     ok = ck.lean_gate(['BctVerif.Props.C03'], extra_modules=['BctVerif.Model.Dist'])
-    ck.lean_gate([], gen_modules=['BctVerif.Gen.CoresFloyd', 'BctVerif.Gen.CoresDijk', 'BctVerif.Gen.CoresBin', 'BctVerif.Gen.CoresBfs', 'BctVerif.Gen.CoresReach'])
+    ck.lean_gate([], gen_modules=['BctVerif.Gen.CoresFloyd', 'BctVerif.Gen.CoresDijk', 'BctVerif.Gen.CoresBin', 'BctVerif.Gen.CoresBfs', 'BctVerif.Gen.CoresReach', 'BctVerif.Gen.CoresChar', 'BctVerif.Gen.CoresEff'])
     if ck.tier == 'thorough' and ok:
         ck.leanchecker(['BctVerif.Props.C03', 'BctVerif.Model.Dist'])
     rp = json.load(open(ck.replay)) if ck.replay else None
@@ -35,13 +35,20 @@ def main():
         c0 = rp['case']['case']
         # a failure may depend on what the worker process ran before (hidden state): replay the case as a two-step sequence
         # (itself, then itself again) unless it already is a sequence / probe
-        cases = [c0 if c0.get('kind') in ('seq', 'probe', 'nav', 'big', 'bad') else
+        cases = [c0 if c0.get('kind') in ('seq', 'probe', 'nav', 'big', 'bad', 'size') else
                  {'kind': 'seq', 'A': c0['A'], 'steps': [c0, c0], 'gen': 'replay', **({'only': c0['only']} if c0.get('only') else {})}]
     else:      # no replay, or a `no-failing-input-found` replay (broken theorem / correspondence): run the whole tier
         cases = dc.gen_dist_cases(ck.rs, ck.tier)
     if rp is None:
         # interleave: workers must not see the cases grouped by routine / family / size (hidden state carried between calls)
         order = ck.rs.permutation(len(cases)); cases = [cases[i] for i in order]
+        # the few large size-axis cases (seconds each) go to the head of distinct chunks so that they run in parallel from the start
+        bigc = [c for c in cases if c.get('kind') == 'size' and c['spec']['n'] >= 200]
+        rest = [c for c in cases if not (c.get('kind') == 'size' and c['spec']['n'] >= 200)]
+        step = max(1, len(cases) // (16 * 8))
+        for k, c in enumerate(bigc):
+            rest.insert(min(len(rest), k * step), c)
+        cases = rest
     results = pmap(dc.run_case, cases)
     dc.absorb(ck, cases, results, FUNCS)
     dc.timeout_rates(ck)
